@@ -40,6 +40,7 @@ import (
 	"mellium.im/xmpp/xtime"
 
 	"verif/sess"
+	"verif/vs"
 )
 
 // Handler configurations.
@@ -162,8 +163,9 @@ func (w *world) fullMux(ns string, cb int) *mux.ServeMux {
 			UnblockAll: func() { w.calls++ },
 			List: func(c chan<- jid.JID) {
 				if cb == 0 {
-					c <- archiveJID
-					c <- peerJID
+					// (scheduling points when a controlled run is active, plain sends otherwise)
+					vs.Send(c, archiveJID)
+					vs.Send(c, peerJID)
 				}
 			},
 		}),
